@@ -992,6 +992,10 @@ func (vfs *OrefaFS) Truncate(name string, size int64) error {
 		return &fs.PathError{Op: op, Path: name, Err: vfs.err.InvalidArgument}
 	}
 
+	if size > maxFileSize {
+		return &fs.PathError{Op: op, Path: name, Err: vfs.err.InvalidArgument}
+	}
+
 	absPath, _ := vfs.Abs(name)
 
 	vfs.mu.RLock()
